@@ -122,7 +122,7 @@ def gen_plan(seed, tier="quick"):
         "p_switch": r.choice([0.0, 0.0, 0.02, 0.1, 0.5, 1.0]), "victim": r.choice([None, None, 0, n_jobs - 1]),
         "order": r.choice([None, None, "reverse", "shuffle"]), "sched_seed": r.randrange(1 << 30), "trace": None,
         "io_mode": r.random() < 0.4,          # pre-emption decisions only around lines that touch files / store into arrays
-        "delay": ({"tf": r.random(), "ef": r.random(), "sf": r.random(), "occ": r.choice(["first", "first", "last", "any"]),
+        "delay": ({"tf": r.random(), "ef": r.random(), "sf": r.random(), "sf2": r.random(), "occ": r.choice(["first", "first", "last", "any"]),
                    "where": r.choice(["end", "start", "any", "site", "site", "site"])} if r.random() < 0.4 else None),   # hold one chunk task at a file-touching line
         # an earlier extraction in the same process on another probe geometry with the same channel count
         "prelude": r.choice([None, None] + [f for f in ("NP1", "NP21", "NP24") if f != fixture]),
@@ -277,9 +277,13 @@ def sweep_plans(tier, verif_seed):
         p["spikes"] = [sp for sp in p["spikes"] if sp[0] < p["ns"] and sp[2] < p["nap"]]
         while p["ns"] / p["chunk"] > 8:
             p["chunk"] *= 2
-        cand = sched.hold_candidates(_count_io(p))
+        sites_ = _count_io(p)
+        cand = sched.hold_candidates(sites_)
         if tier == "quick":
-            cand = sorted(r.sample(cand, min(len(cand), 24)))
+            # the quick tier sweeps the task body's own sites (every one of them, first and last occurrence), capped
+            cand = sched.hold_candidates(sites_, body_only=True)
+            if len(cand) > 90:
+                cand = sorted(r.sample(cand, 90))
         elif len(cand) > 400:
             cand = sorted(r.sample(cand, 400))
         for t, e in cand:
